@@ -36,7 +36,7 @@ ASSUMPTIONS = [
     "Dataset.copy() / inplace=False results are not required to keep appended-but-unused axes",
 ]
 MANDATORY = ["op:set-new", "op:set-replace", "op:reject", "op:del", "op:rename_ds", "op:rename_var", "op:dims", "op:set_axis", "op:axes_set",
-             "op:axes_set_int", "op:axes_set_renamed", "op:label", "op:append", "op:rename_keys", "op:rename_axes", "op:copy", "op:derive",
+             "op:axes_set_int", "op:axes_set_renamed", "op:label", "op:append", "op:rename_keys", "op:rename_axes", "rename_axes:callable", "op:copy", "op:derive",
              "start:constructed", "reject-after-accept", "replace-changes-dims", "axis-change-with-2-users", "reject:new-dim-first", "dims:permute-existing", "reject:truncated-labels"]
 
 NAMES = ["x", "y", "z", "w"]
@@ -129,6 +129,10 @@ def run_case(case):
         elif s % 5 == 3:
             la, lb = [3, 0, 2, 7][:3 + s % 2], [3, 5, 9, 7][:3 + s % 2]
             lb[-1] = la[-1]                                     # same length, same first and last label, other labels in between
+        if s % 7 == 6:
+            la, lb = [[0], [3, 2, 7]][::1 if s % 2 else -1]      # one variable with a single (falsy) label that the other one lacks
+        elif s % 7 == 5:
+            la, lb = [[7], [0]][::1 if s % 2 else -1]            # two single labels
         a1 = mkarr(da, ["x"], [la], 10)
         a2 = mkarr(da, ["x", "y"], [lb, LABPOOL["s"][:2]], 50)
         ds = lib(lambda: da.Dataset(a=a1, b=a2), what="Dataset(a=x%s, b=(x%s, y))" % (la, lb), sig=sig)
@@ -275,7 +279,21 @@ def run_case(case):
                     cl.add("rename_axes:overlapping-names")
                     cl.add("op:" + op)
                     continue
-                lib(lambda: ds.rename_axes({old: new}), what=what + " rename_axes({%s: %s})" % (old, new), sig=sig)
+                if b % 3 == 1:
+                    # a callable mapper is applied to every axis of the dataset (also to appended ones that no variable uses yet)
+                    if e % 3 == 0:
+                        lib(lambda: ds.rename_axes(lambda n: n.swapcase()), what=what + " rename_axes(str.swapcase)", sig=sig)
+                        mp = dict((d, d.swapcase()) for d in m.axes)
+                        m.axes = collections.OrderedDict((mp[d], l) for d, l in m.axes.items())
+                        m.vars = collections.OrderedDict((kk, (tuple(mp[d] for d in dd), v)) for kk, (dd, v) in m.vars.items())
+                        m.free = set(mp[d] for d in m.free)
+                        cl.add("rename_axes:callable")
+                        cl.add("op:" + op)
+                        continue
+                    lib(lambda: ds.rename_axes(lambda n: new if n == old else n), what=what + " rename_axes(callable %s -> %s)" % (old, new), sig=sig)
+                    cl.add("rename_axes:callable")
+                else:
+                    lib(lambda: ds.rename_axes({old: new}), what=what + " rename_axes({%s: %s})" % (old, new), sig=sig)
             m.rename_axis(old, new)
             cl.add("op:" + op)
         elif op == "dims":
